@@ -21,6 +21,7 @@ package main
 
 import (
 	"fmt"
+	"reflect"
 	"strconv"
 	"strings"
 )
@@ -240,7 +241,12 @@ func extGenDefaults(r interface{ Intn(int) int }) string {
 // extGenUser: partial settings — one key added / one key changed, a shorter / longer list with null elements, one field
 // of the nested struct, explicit nulls
 func extGenUser(r interface{ Intn(int) int }) [4]string {
-	val := func() string { return strconv.Itoa(1 + r.Intn(90)) }
+	val := func() string { // now and then an explicit zero
+		if r.Intn(8) == 0 {
+			return "0"
+		}
+		return strconv.Itoa(1 + r.Intn(90))
+	}
 	elems := func(max int) string {
 		switch r.Intn(8) {
 		case 0:
@@ -285,4 +291,58 @@ func extGenUser(r interface{ Intn(int) int }) [4]string {
 
 func uxText(ux [4]string) string {
 	return fmt.Sprintf("um=%s ul=%s ur=%s up=%s", ux[0], ux[1], ux[2], ux[3])
+}
+
+// confRefs: where the reference-typed options of a configuration keep their data (0: nil / empty).  Two products that
+// were configured separately ("a freshly created and freshly decoded configuration") never have one in common, whether
+// the constructor takes the configuration by value or by pointer.
+func confRefs(c Conf) (r [3]uintptr) {
+	if c.M != nil {
+		r[0] = reflect.ValueOf(c.M).Pointer()
+	}
+	if cap(c.L) > 0 {
+		r[1] = reflect.ValueOf(c.L).Pointer()
+	}
+	if c.P != nil {
+		r[2] = reflect.ValueOf(c.P).Pointer()
+	}
+	return
+}
+
+// sharedCount: the number of products of a COMPONENT constructor (configured per product; the default-config function
+// of an ext case builds new structured options on every call) that hold a map / list / nested struct an earlier product
+// holds too
+func (w *world) sharedCount() int {
+	if !w.ext.on || w.sh.factory || w.sh.dflt == 's' {
+		return 0
+	}
+	n := 0
+	var seen [3]map[uintptr]bool
+	for i := range seen {
+		seen[i] = map[uintptr]bool{}
+	}
+	for _, p := range w.products {
+		dup := false
+		for i, r := range p.refs {
+			if r == 0 {
+				continue
+			}
+			if seen[i][r] {
+				dup = true
+			}
+			seen[i][r] = true
+		}
+		if dup {
+			n++
+		}
+	}
+	return n
+}
+
+// sharedText is appended to an observation only when something is shared (the model never predicts it)
+func (w *world) sharedText() string {
+	if n := w.sharedCount(); n > 0 {
+		return " shared=" + strconv.Itoa(n)
+	}
+	return ""
 }
